@@ -2,7 +2,9 @@
 Models: coq/Model/{Xml,Escape,Builders}.v; spec: coq/Spec/Rfc6241Schema.v; theorems: coq/Props/C07.v.
 Every case is one real Manager call on a capturing session with every capability advertised; the captured
 message is read by an independent reader (xml.etree/expat) and compared (a) with the model's tree, (b) with the
-oracle: the Appendix-F schema of the operation and path assertions for every caller string / fragment."""
+oracle: the Appendix-F schema of the operation and path assertions for every caller string / fragment, (c) with the binding
+oracle: every namespace binding in scope at an element of a caller document (and every entry of an XPath filter's prefix map)
+is in scope at that element of the request (tools/harness/nsscope.py; model coq/Model/NsScope.v, runner fn 8)."""
 import json, os, glob
 ID = 'C07'
 COQ_ROOTS = ['Props/C07.v', 'GenProps/Caps_consts.v', 'GenProps/Gating_consts.v', 'GenProps/Builders_consts.v', 'GenProps/Vendor_consts.v']
@@ -16,12 +18,17 @@ RULE = ('case = (device profile, operation, argument record). Operations: the 19
         'class, vendor Manager method, argument record) for the 30 classes of third_party/*/rpc.py; the unit tests\' and examples\' own calls and '
         'every switch corner as fixed cases, then generated records: the same string grammar for command/config/file/comment text and for '
         'format/action/rollback attributes, config as str / list of str / lxml element, caller documents as str and element (un-namespaced, default, '
-        'prefixed), junos timeouts as int and as str (incl. non-numbers), plus an invalid stream (NUL/C0/U+FFFE/FFFF/surrogates in one string argument).')
+        'prefixed), junos timeouts as int and as str (incl. non-numbers), plus an invalid stream (NUL/C0/U+FFFE/FFFF/surrogates in one string argument). '
+        'Namespace bindings: 30% of the generated fragment elements declare 1-2 prefixes that no element or attribute name uses (ianaift, if, oc-if, a non-ASCII '
+        'prefix) and carry QName / path content that depends on them (identityref, instance-identifier); XPath filters with a prefix map of 1-3 entries whose '
+        'select string uses the prefixes; fixed cases on all 14 profiles (XPath prefix map, identityref config as str and element, subtree filter) and one per class '
+        'of the open findings; every case with a caller document is read with a scope-tracking expat reader and compared element by element.')
 ASSUMES = ['vendor classes: Python verdicts int(timeout) (junos commit) and bool(comment.strip()) (sros commit) are inputs of the model; caller fragments of vendor calls do not use the base namespace (that class is the open finding envelope_namespace_binding_shadowed, one explicit huawei case); junos timeouts within +-10^12 (binary64 division is exact there)',
            'the server advertises every capability (gating is C09); with-defaults lists the four RFC 6243 modes',
            'lxml verdicts on element names are oracle inputs (catalogue); documents are parsed for the model by the independent reader',
-           'namespace declarations (prefix bindings) are not part of the compared tree: an XPath filter with its own nsmap is compared on the select string only']
-TRUSTED = ['modelled, not verified: libxml2 serialiser/parser beyond the escaping function, expat (independent reader)']
+           'binding oracle: the default namespace bound to the base namespace is not demanded at a caller element (the profile envelope decides how the base namespace is written); a caller document is found in the request by the tree oracle\'s notion of sameness (names, attributes, text, order; R3 adoption; re-qualified protocol root)',
+           'NsScope.place is given the scope of the wire parent as the independent reader reports it (the xmlns-attribute idiom of huawei/sros/h3c is a declaration for the reader but not for lxml: vendor fragments never repeat those namespaces)']
+TRUSTED = ['modelled, not verified: libxml2 serialiser/parser beyond the escaping function and the removal of redundant namespace declarations on append, expat (independent reader)']
 
 B = 'urn:ietf:params:xml:ns:netconf:base:1.0'
 N = 'urn:ietf:params:xml:ns:netconf:notification:1.0'
@@ -86,8 +93,23 @@ def esc_a(s): return esc_t(s).replace('"', '&quot;').replace('\n', '&#10;').repl
 FR_NS = ['urn:x', 'http://example.com/a?b=c&d', 'urn:ietf:params:xml:ns:yang:ietf-interfaces']     # B below the root: see shadow_cases
 FR_NAMES = ['a', 'b', 'interfaces', 'config', 'data', 'x-y', 'é']
 
+# prefixes a caller uses only INSIDE content (identityref / instance-identifier values, XPath select strings): declared on an
+# element, used by no element or attribute name.  One namespace per prefix (re-binding a prefix is the shadow finding's class).
+IANA = 'urn:ietf:params:xml:ns:yang:iana-if-type'
+IETF_IF = 'urn:ietf:params:xml:ns:yang:ietf-interfaces'
+CONTENT_NS = [('ianaift', IANA), ('if', IETF_IF), ('oc-if', 'http://openconfig.net/yang/interfaces?x=1&y'), ('\u00e91', 'urn:example:e9')]
+
+def gen_qcontent(rng, pfs):
+    """content whose meaning depends on the bindings of [pfs]: a QName (identityref), a path (instance-identifier / XPath)"""
+    p, q = rng.choice(pfs), rng.choice(pfs)
+    r = rng.random()
+    if r < 0.4: return '%s:%s' % (p, rng.choice(['ethernetCsmacd', 'l2vlan', 'x-y', '\u00e9']))
+    if r < 0.85: return "/%s:interfaces/%s:interface[%s:name='%s']/%s:type" % (p, p, p, gen_str(rng, 2).replace("'", '').replace('\r', ''), q)
+    return '%s:a %s' % (p, gen_str(rng, 3).replace('\r', ''))
+
 def gen_fragment(rng, depth=0, root=None, ns_choice=None):
-    """an XML document as text: default-namespace, prefixed and un-namespaced elements, attributes, mixed text"""
+    """an XML document as text: default-namespace, prefixed and un-namespaced elements, attributes, mixed text, and prefixes
+    that are declared for the sake of content only"""
     name = root or rng.choice(FR_NAMES)
     kind = ns_choice if ns_choice is not None else rng.choice(['none', 'default', 'prefix', 'none', 'default'])
     attrs = ''
@@ -99,6 +121,12 @@ def gen_fragment(rng, depth=0, root=None, ns_choice=None):
     for k in rng.sample(['k', 'operation', 'type', 'select'], rng.choice([0, 0, 1, 2])):
         attrs += ' %s="%s"' % (k, esc_a(gen_str(rng, 4).replace('\r', '')))
     body = ''
+    if rng.random() < 0.3:
+        mine = rng.sample(CONTENT_NS, rng.choice([1, 1, 2]))
+        for pf, uri in mine: attrs += ' xmlns:%s="%s"' % (pf, esc_a(uri))
+        pfs = [pf for pf, _ in mine]
+        if rng.random() < 0.4: attrs += ' path="%s"' % esc_a(gen_qcontent(rng, pfs))
+        if rng.random() < 0.7: body += esc_t(gen_qcontent(rng, pfs))
     if depth < 3:
         for _ in range(rng.choice([0, 0, 1, 2, 3])):
             if rng.random() < 0.4: body += esc_t(gen_str(rng, 4).replace('\r', ''))
@@ -118,12 +146,19 @@ def gen_filter(rng, allow_bad=True):
     if r < 0.12: return None
     if r < 0.40: return {'kind': 'subtree', 'xml': gen_fragment(rng), 'as': as_}
     if r < 0.55: return {'kind': 'xpath', 'select': gen_str(rng)}
-    if r < 0.62: return {'kind': 'xpath-ns', 'select': gen_str(rng), 'nsmap': {'x': 'urn:x'}}
+    if r < 0.62: return gen_xpath_ns(rng)
     if r < 0.74: return {'kind': 'list', 'xmls': [gen_fragment(rng) for _ in range(rng.randint(0, 3))], 'as': as_}
     if r < 0.88: return {'kind': 'raw', 'xml': gen_doc(rng, 'filter', rng.choice(['none', 'base'])), 'as': as_}
     if not allow_bad: return None
     return rng.choice([{'kind': 'raw', 'xml': gen_doc(rng, 'notfilter', 'none'), 'as': as_}, {'kind': 'raw', 'xml': gen_doc(rng, 'filter', 'other'), 'as': as_},
                        {'kind': 'badtype'}, {'kind': 'subtree', 'xml': '<a', 'as': 'str'}, {'kind': 'xpath', 'select': rng.choice(INVALID_STR[:8])}])
+
+def gen_xpath_ns(rng):
+    """filter=("xpath", (prefix map, select)): the select string uses the map's prefixes"""
+    pool = CONTENT_NS + [('p', FR_NS[0]), ('q', FR_NS[1]), ('x', 'urn:x2')]       # not ns0/ns1...: the prefixes lxml invents for the builders' own namespaces (shadow finding, one fixed case)
+    items = rng.sample(pool, rng.randint(1, 3))
+    sel = gen_qcontent(rng, [pf for pf, _ in items]) if rng.random() < 0.8 else gen_str(rng)
+    return {'kind': 'xpath-ns', 'select': sel, 'nsmap': dict(items)}
 
 def gen_ds(rng, bad=0.1):
     r = rng.random()
@@ -232,7 +267,7 @@ def py_filter(f):
     k = f['kind']
     if k == 'subtree': return ('subtree', py_value(f))
     if k == 'xpath': return ('xpath', py_value(f['select']))
-    if k == 'xpath-ns': return ('xpath', (f['nsmap'], f['select']))
+    if k == 'xpath-ns': return ('xpath', ({(pf or None): uri for pf, uri in f['nsmap'].items()}, f['select']))     # '' = the default namespace (lxml: None)
     if k == 'list': return [py_value({'xml': x, 'as': f['as']}) for x in f['xmls']]
     if k == 'raw': return py_value(f)
     if k == 'badtype': return ('bogus', 'x')
@@ -549,7 +584,10 @@ def shadow_pred(case):
     """a caller fragment uses the base namespace BELOW its root (where the fragment may have re-bound the default namespace /
     the nc prefix that the envelope uses for it)"""
     import re
+    for v in case['args'].values():      # an XPath prefix map that re-binds the envelope's way of writing the base namespace (nc / default)
+        if isinstance(v, dict) and v.get('kind') == 'xpath-ns' and any((pf in ('nc', '') and uri != B) or re.fullmatch(r'ns\d+', pf) for pf, uri in v['nsmap'].items()): return True
     for x in frag_texts(case['args']):
+        if re.search(r'xmlns:ns\d+=', x): return True             # ... or a prefix lxml invents for the builders' own namespaces (ns0 = notification / monitoring / with-defaults / vendor)
         if '>' in x and B in x[x.index('>'):]: return True
         bound = {}
         for pfx, uri in re.findall(r'xmlns:([A-Za-z_][\w.-]*)="([^"]*)"', x):
@@ -569,6 +607,108 @@ def shadow_cases():
         dict(profile='default', op='edit_config', args=dict(e, config={'xml': '<config xmlns="%s"><nc:data xmlns:nc="urn:x"><b xmlns="%s"/></nc:data></config>' % (B, B), 'as': 'str'})),
         dict(profile='default', op='edit_config', args=dict(e, config={'xml': '<config xmlns="%s"><data xmlns="urn:x"><q:b xmlns:q="%s"/></data></config>' % (B, B), 'as': 'str'})),
     ]
+
+# ---------------- namespace bindings in scope at the caller's elements (tools/harness/nsscope.py, coq/Model/NsScope.v) ----------------
+def observe_bindings(case, r):
+    """nsscope.observe of the single request of a successful call; None when there is none (or it is ill-formed: the tree oracle's verdict)"""
+    from harness import nsscope
+    if r['exc'] is not None or len(r['sent']) != 1: return None
+    try: return nsscope.observe(case, r['sent'][0])
+    except Exception: return None
+
+def binding_verdict(case, r, obs=False):
+    """(what, sig) when a namespace binding in scope at an element of a caller document (or an entry of an XPath filter's prefix
+    map) is not in scope at that element of the request; None otherwise.  Independent of the tree oracle: it only reads the
+    declarations the independent reader reports.  Signatures: the two open findings have exact predicates -
+    [redundant_namespace_declaration_dropped]: EVERY lost binding's namespace URI is still bound, under another prefix, in the scope
+    of the wire element or of its parent (lxml drops a declaration that repeats a namespace in scope);
+    [envelope_namespace_binding_shadowed]: shadow_pred(case).  Anything else: [namespace_binding_lost]."""
+    if obs is False: obs = observe_bindings(case, r)
+    if obs is None: return None
+    lost = [(o['role'], e) for o in obs if o['W'] is not None for e in o['lost']]
+    if not lost: return None
+    what = '; '.join('%s: binding %s=%r in scope at the caller\'s element %s is %s on the wire' % (
+        role, ('xmlns:' + e['prefix']) if e['prefix'] else 'xmlns', e['uri'], '/' + '/'.join(map(str, e['path'])),
+        'not in scope' if e['wire'] is None else 'bound to %r' % e['wire']) for role, e in lost[:3])
+    if shadow_pred(case): return (what, 'envelope_namespace_binding_shadowed')
+    if all(e['redundant'] for _, e in lost): return (what, 'redundant_namespace_declaration_dropped')
+    return (what, 'namespace_binding_lost')
+
+def binding_model_calls(case, obs):
+    """[(calls, wire declarations per call, role)] for NsScope.place (runner fn 8): own declarations of the caller's elements on the
+    wire. A document that occurs more than once in the request (the same fragment given twice, or equal to a part of another one)
+    has several candidate places: the model must predict one of them."""
+    from harness import nsscope
+    if obs is None or shadow_pred(case): return []
+    return [([[8, nsscope.enc_scope(c['parent_scope']), nsscope.enc_dtree(o['F'])] for c in o['candidates']],
+             [nsscope.own_preorder(o['F'], c['W']) for c in o['candidates']], o['role']) for o in obs if o['W'] is not None]
+
+def check_bindings(ctx, cases, results, kcases):
+    """both comparisons for a batch of (case, result): model (disagree) and property (fail)"""
+    from harness import nsscope
+    calls, meta = [], []
+    observed = [observe_bindings(case, r) for case, r in zip(cases, results)]
+    for i, (case, r) in enumerate(zip(cases, results)):
+        for cs, wire_owns, role in (binding_model_calls(case, observed[i]) if ctx.model else []):
+            meta.append((i, len(calls), len(cs), wire_owns, role)); calls += cs
+    outs = ctx.model.batch(calls) if calls else []
+    for i, at, n, wire_owns, role in meta:
+        mos = outs[at:at + n]
+        if any(isinstance(mo, str) or (mo and mo[0] == 999) for mo in mos):
+            ctx.disagree(kcases[i], repr(mos), None, 'model runner rejected the declaration-skeleton encoding'); continue
+        mds = [nsscope.dec_decls(mo) for mo in mos]
+        if not any(md == [sorted(d) for d in wo] for md, wo in zip(mds, wire_owns)):
+            ctx.disagree(kcases[i], {'role': role, 'declarations': mds[0]}, {'role': role, 'declarations': wire_owns[0]},
+                         'NsScope.place vs the namespace declarations on the caller\'s elements in the captured request', theorem='C07_ns_bindings_carried')
+    for i, (case, r) in enumerate(zip(cases, results)):
+        docs = nsscope.caller_docs(case)
+        if docs and r['exc'] is None and len(r['sent']) == 1:
+            nb = sum(len(f[6]) for d in docs for f, _ in nsscope.walk(d['F']))
+            ctx.hist('ns_bindings_in_scope', '0' if nb == 0 else '1-3' if nb < 4 else '4-15' if nb < 16 else '16+')
+        for o in observed[i] or []: ctx.hist('ns_document_on_the_wire', 'located' if o['W'] is not None else 'not located (tree oracle reports it)' if oracle_says_altered(case, r) else 'not located')
+        j = binding_verdict(case, r, observed[i])
+        ctx.hist('ns_verdict', 'no caller document' if not docs else 'not sent' if r['exc'] is not None or len(r['sent']) != 1 else j[1] if j else 'carried')
+        if j: ctx.fail(kcases[i], j[0], sig=j[1], expected='every namespace binding in scope at the caller\'s elements is in scope at the same elements of the request',
+                       actual={'sent': [x[:600] for x in r['sent']]})
+
+def oracle_says_altered(case, r):
+    try:
+        if 'vop' in case:
+            from harness import vendorops
+            return vendorops.oracle(case, r) is not None
+        return oracle(case, r, case['profile'] in DEFAULT_NS_PROFILES, case['profile'] == 'iosxe') is not None
+    except Exception: return True
+
+IDREF_DOC = ('<config xmlns="%s"><interfaces xmlns="%s"><interface><name>eth0</name><type xmlns:ianaift="%s">ianaift:ethernetCsmacd</type>'
+             '<ref xmlns:oc-if="http://openconfig.net/yang/interfaces" path="/oc-if:interfaces/oc-if:interface">oc-if:x</ref></interface></interfaces></config>' % (B, IETF_IF, IANA))
+
+def binding_cases():
+    """fixed cases: on every profile an XPath filter with a prefix map and a <config> with identityref / instance-identifier values
+    (string and element); then the two classes the unchanged library is known to alter (open findings)"""
+    from harness import capture
+    e = dict(format='xml', target='candidate', default_operation=None, test_option=None, error_option=None)
+    sel = "/if:interfaces/if:interface[if:type='ianaift:ethernetCsmacd']/if:name"
+    out = []
+    for prof in capture.PROFILES:
+        out.append(dict(profile=prof, op='get_config', args=dict(source='running', with_defaults=None,
+                        filter={'kind': 'xpath-ns', 'select': sel, 'nsmap': {'if': IETF_IF, 'ianaift': IANA}})))
+        out.append(dict(profile=prof, op='get', args=dict(with_defaults=None, filter={'kind': 'subtree', 'as': 'str', 'xml':
+                        '<interfaces xmlns="%s"><interface><type xmlns:ianaift="%s">ianaift:ethernetCsmacd</type></interface></interfaces>' % (IETF_IF, IANA)})))
+        for as_ in ('str', 'ele'):
+            out.append(dict(profile=prof, op='edit_config', args=dict(e, config={'xml': IDREF_DOC, 'as': as_})))
+    # open finding redundant_namespace_declaration_dropped
+    red = '<config xmlns="%s"><interfaces xmlns="%s"><interface><ref xmlns:if="%s">/if:interfaces/if:interface</ref></interface></interfaces></config>' % (B, IETF_IF, IETF_IF)
+    out += [dict(profile='default', op='edit_config', args=dict(e, config={'xml': red, 'as': 'str'})),
+            dict(profile='nexus', op='edit_config', args=dict(e, config={'xml': red, 'as': 'ele'})),
+            dict(profile='nexus', op='edit_config', args=dict(e, config={'xml': '<config xmlns="%s"><a xmlns="urn:a"><t xmlns:myif="http://www.cisco.com/nxos:1.0:if_manager">myif:x</t></a></config>' % B, 'as': 'str'})),
+            dict(profile='junos', op='edit_config', args=dict(e, config={'xml': '<config xmlns="%s"><a xmlns="urn:a"><t xmlns:base="%s">base:x</t></a></config>' % (B, B), 'as': 'str'})),
+            dict(profile='alu', op='get_config', args=dict(source='running', with_defaults=None, filter={'kind': 'xpath-ns', 'select': '/b:x', 'nsmap': {'b': B}}))]
+    # open finding envelope_namespace_binding_shadowed: the prefix map re-binds the envelope's own way of writing the base namespace
+    out += [dict(profile='default', op='get_config', args=dict(source='running', with_defaults=None, filter={'kind': 'xpath-ns', 'select': '/nc:x', 'nsmap': {'nc': 'urn:mine'}})),
+            dict(profile='alu', op='get', args=dict(with_defaults=None, filter={'kind': 'xpath-ns', 'select': '/x', 'nsmap': {'': 'urn:dflt'}})),
+            dict(profile='alu', op='create_subscription', args=dict(stream_name=None, start_time=None, stop_time=None, filter={'kind': 'xpath-ns', 'select': '/ns0:x', 'nsmap': {'ns0': 'urn:q'}})),
+            dict(profile='default', op='create_subscription', args=dict(stream_name=None, start_time=None, stop_time=None, filter={'kind': 'raw', 'as': 'str', 'xml': '<filter xmlns:ns0="urn:q" type="xpath" select="/ns0:x"/>'}))]
+    return out
 
 def invalid_text(s):
     if not isinstance(s, str): return True
@@ -695,6 +835,12 @@ def run_cases(ctx, cases):
                     ctx.disagree(kcase, mt, it if r['exc'] is None else {'exc': r['exc']}, 'Builders.build vs captured request tree', theorem='C07_conforms')
         j = oracle(case, r, dns, case['profile'] == 'iosxe')
         if j: ctx.fail(kcase, j[0], sig=j[1], expected='schema instance carrying the caller data / local rejection', actual={'exc': r['exc'], 'sent': [x[:400] for x in r['sent']]})
+    check_bindings(ctx, cases, results, [json.loads(key_of(c)) for c in cases])
+
+def judge(case):
+    """(result, first verdict of the tree oracle and the binding oracle)"""
+    r = impl_run(case)
+    return r, (oracle(case, r, case['profile'] in DEFAULT_NS_PROFILES, case['profile'] == 'iosxe') or binding_verdict(case, r))
 
 def escape_micro(ctx, rng, n):
     """escape_text / escape_attr vs lxml byte-exactly; unescape and expat give the string back"""
@@ -779,6 +925,7 @@ def run(ctx):
         c = json.load(open(f))['case']
         if 'vop' in c: vendorops.run_vendor_cases(ctx, [c])
         else: run_cases(ctx, [c])
+    run_cases(ctx, binding_cases())
     vendor_cases(ctx)
     escape_micro(ctx, ctx.rng, 300 if ctx.tier == 'quick' else 5000)
     run_cases(ctx, shadow_cases())
@@ -787,7 +934,7 @@ def run(ctx):
 def search(ctx, seeds):
     from harness import vendorops
     from vlib import findings
-    tries = list(seeds) + vendorops.gen_vendor_cases(ctx.rng, 'quick') + gen_cases(ctx.rng, 'quick')
+    tries = list(seeds) + binding_cases() + vendorops.gen_vendor_cases(ctx.rng, 'quick') + gen_cases(ctx.rng, 'quick')
     for case in tries:
         if 'vop' in case:
             try: r, j = vendorops.judge(case)
@@ -796,11 +943,10 @@ def search(ctx, seeds):
             continue
         if 'op' not in case: continue
         try:
-            r = impl_run(case)
-            j = oracle(case, r, case['profile'] in DEFAULT_NS_PROFILES, case['profile'] == 'iosxe')
+            r, j = judge(case)
         except Exception:
             continue
-        if j: return dict(case=json.loads(key_of(case)), what=j[0], sig=j[1], expected='schema instance / local rejection', actual={'exc': r['exc'], 'sent': [x[:400] for x in r['sent']]})
+        if j and not findings.covered(ID, j[1]): return dict(case=json.loads(key_of(case)), what=j[0], sig=j[1], expected='schema instance / local rejection', actual={'exc': r['exc'], 'sent': [x[:400] for x in r['sent']]})
     return None
 
 def reproduce(finding):
@@ -808,8 +954,7 @@ def reproduce(finding):
     if 'vop' in case:
         from harness import vendorops
         return vendorops.judge(case)[1] is not None
-    r = impl_run(case)
-    return oracle(case, r, case['profile'] in DEFAULT_NS_PROFILES, case['profile'] == 'iosxe') is not None
+    return judge(case)[1] is not None
 
 def _replay_enum(c):
     from harness import capture
@@ -821,6 +966,7 @@ def _replay_enum(c):
     return r['exc'] is not None and not r['sent']
 
 def replay(doc):
+    from vlib import findings
     if doc.get('case', {}).get('check') == 'enum_with_defaults':
         return _replay_enum(doc['case'])
     case = doc['case']
@@ -830,14 +976,13 @@ def replay(doc):
         print('case     :', case)
         print('expected : instance of the vendor schema carrying the caller data, or local rejection:', vendorops.expected_rejection(case))
         print('actual   :', {'exc': r['exc'], 'sent': [x[:600] for x in r['sent']]})
-        if j: print('verdict  :', j)
-        return j is None
+        if j: print('verdict  :', j, '(open known finding)' if findings.covered(ID, j[1]) else '')
+        return j is None or findings.covered(ID, j[1])
     if 'op' not in case:
         print('case is a micro-check of the escaping model:', case); return True
-    r = impl_run(case)
-    j = oracle(case, r, case['profile'] in DEFAULT_NS_PROFILES, case['profile'] == 'iosxe')
+    r, j = judge(case)
     print('case     :', case)
-    print('expected : schema instance carrying the caller data, or local rejection:', expected_rejection(case))
+    print('expected : schema instance carrying the caller data with the namespace bindings in scope at its elements, or local rejection:', expected_rejection(case))
     print('actual   :', {'exc': r['exc'], 'sent': [x[:600] for x in r['sent']]})
-    if j: print('verdict  :', j)
-    return j is None
+    if j: print('verdict  :', j, '(open known finding)' if findings.covered(ID, j[1]) else '')
+    return j is None or findings.covered(ID, j[1])
